@@ -494,6 +494,8 @@ class Scenario(object):
         self.join_unknown = join_unknown  # undecided `if`: run both arms and join the normal exits (call/store sets are united)
 
 
+HASHLIB_CTORS = ('md5', 'sha1', 'sha224', 'sha256', 'sha384', 'sha512', 'sha3_224', 'sha3_256', 'sha3_384', 'sha3_512', 'blake2b', 'blake2s')
+
 BUILTIN_TYPES = {'str', 'bytes', 'bytearray', 'int', 'bool', 'list', 'tuple', 'set', 'dict', 'NoneType', 'datetime',
                  'timedelta'}
 
@@ -1575,6 +1577,13 @@ class Frame(object):
                 h = Hasher(alg)
                 if len(args) > 1:
                     h.items.extend(as_items(args[1]))
+                return h
+            if fname is not None and fname.startswith('hashlib.') and fname[8:] in HASHLIB_CTORS:
+                # hashlib.sha1([data]) is hashlib.new('sha1'[, data])
+                record(fname)
+                h = Hasher(fname[8:])
+                if args:
+                    h.items.extend(as_items(args[0]))
                 return h
             if fname in ('hashes.Hash',) and args:
                 record(fname)
